@@ -40,6 +40,23 @@ def run(ctx, escalated=False):
         ctx.count("conductor:" + r["ret"])
         if k % 30 == 29:
             shutil.rmtree(os.path.join(ctx.scratch, "cond"), ignore_errors=True)
+    # a request that arrives while the only live jobs are restarts still waiting in the queue (their steps read
+    # TIMEDOUT in the status table until the new job is seen running): jobs that keep timing out, unlimited
+    # restarts, the request delivered by the real `maestro cancel` or by the call it ends in
+    waiting = {"description": {"name": "waiting", "description": "restarts in the queue"},
+               "study": [{"name": nm, "description": "d", "run": {"cmd": nm, "restart": nm + " --again"}}
+                         for nm in ("sim", "post")]}
+    for k in range(24 if quick else 400):
+        r = condsim.run(ctx, ctx.rng, "w%d" % k, cancel_prob=0.4, entry=("direct", "fg", "bg")[k % 3], timeouts=0.8,
+                        max_polls=60, force={"rlimit": 0, "throttle": 0}, spec=waiting)
+        if r is None:
+            continue
+        extra.append(Case({"kind": "conductor-restarts-in-queue", "spec": r["spec"], "polls": r["polls"],
+                           "returned": r["ret"], "entry": r["entry"], "options": r["options"],
+                           "cancel_how": r["cancel_how"], "cancel_at_poll": r["cancelled"]},
+                          [r["loop"][0]] if r["loop"] else [], [r["loop"][1]] if r["loop"] else [],
+                          r["mon"]["C07"][:3], r["cancelled"] is not None))
+        ctx.count("conductor-restarts-in-queue:" + str(r["ret"]))
     import scripted as S
     S.install()
     cases = cases + extra
